@@ -61,6 +61,9 @@ def make_alg(name, r, cplx, salt):
         return DenseSVD()
     if name == "Auto":
         return Auto()
+    if name == "LOBPCG":
+        from cola.linalg.eig.lobpcg import LOBPCG
+        return LOBPCG()                                     # library defaults (keyed start block, single precision inside)
     rng = np.random.RandomState(zlib.crc32(salt.encode()) % (2**31 - 1))
     v = rng.randn(r) + 2.0
     if cplx:
@@ -94,7 +97,7 @@ def check_svd(A, k, algname, expected, at, case, rp, which="LM", declared=False)
         V("exception", f"{type(e).__name__}: {str(e)[:140]}", **common.exc_info(e))
         return viol
     kk = Sd.shape[0]
-    krylov = algname.startswith("Lanczos")
+    krylov = algname.startswith("Lanczos") or algname == "LOBPCG"       # iterative: exactly k triplets must come back
     if Sd.shape != (kk, kk) or Ud.shape != (m, kk) or Vd.shape != (n, kk) or not (kk == k or (not krylov and kk == r)):
         V("count", f"asked for k={k} of {r} triplets: U {Ud.shape}, Sigma {Sd.shape}, V {Vd.shape}", returned=kk)
         return viol
@@ -102,12 +105,13 @@ def check_svd(A, k, algname, expected, at, case, rp, which="LM", declared=False)
         V("nonfinite", "factors contain NaN/Inf", returned=kk)
         return viol
     scale = expected["sig"][0]
-    tol = 1e-7 * scale
+    rel = LOBPCG_TOL if algname == "LOBPCG" else 1e-7       # LOBPCG iterates in single precision
+    tol = rel * scale
     eo = np.abs(Ud.conj().T @ Ud - np.eye(kk)).max()
-    if eo > 1e-7:
+    if eo > rel:
         V("orthonormal_U", f"max |U^H U - I| = {eo:.3g}", returned=kk)
     eo = np.abs(Vd.conj().T @ Vd - np.eye(kk)).max()
-    if eo > 1e-7:
+    if eo > rel:
         V("orthonormal_V", f"max |V^H V - I| = {eo:.3g}", returned=kk)
     d = np.diag(Sd)
     if np.abs(Sd - np.diag(d)).max() > tol or np.abs(np.imag(d)).max() > tol or np.real(d).min() < -tol:
@@ -133,7 +137,11 @@ def check_svd(A, k, algname, expected, at, case, rp, which="LM", declared=False)
     return viol
 
 
-SVD_ALGS = ("DenseSVD", "Auto", "Lanczos", "Lanczos+")
+SVD_ALGS = ("DenseSVD", "Auto", "Lanczos", "Lanczos+", "LOBPCG")
+# LOBPCG works in single precision (scipy's lobpcg on a float32 / complex64 operator): measured on the catalog with a correct
+# rule <= 4.3e-7 sigma_1 (values, reconstruction) and <= LOBPCG_ORTH_MEASURED (orthonormality); dropped / wrong triplets give
+# >= 0.25 sigma_1: relative tolerance 3e-5 (reconstruction 3e-4), below the geometric middle 3e-4
+LOBPCG_TOL = 3e-5
 
 
 def observe_svd(job):
@@ -147,7 +155,7 @@ def observe_svd(job):
                 "recon": {k: _arr(job["best"][str(k)], cplx) for k in range(1, r + 1)},
                 "tail": {k: _arr(job["tail"][str(k)], cplx) for k in range(1, r + 1)} if job.get("tail") else {}}
     sa = bool(job.get("sa"))
-    plans = [("LM", False)] + ([("LM", True), ("SM", False), ("SM", True)] if sa else [])
+    plans = [("LM", False), ("SM", False)] + ([("LM", True), ("SM", True)] if sa else [])
     viol, n_eval = [], 0
     for which, declared in plans:
         for k in range(1, r + 1):
